@@ -99,9 +99,11 @@ Theorem C06_copy_other_ws_keeps_when_free : forall c h ws u,
 Proof. intros c h ws u w. apply (copy_identifier_rule c h ws u). Qed.
 Print Assumptions C06_copy_other_ws_keeps_when_free.
 
-(* 5. one_type_per_class (PARTIAL): EntityType.find_or_create returns the live type registered under the class's
-      identifier and creates nothing; that every live group/object's type IS that registered type is compared with the
-      implementation on every case and checked by the oracle, not proved as an invariant *)
+(* 5. one_type_per_class.  Function level: EntityType.find_or_create returns the live type registered under the class's
+      identifier and creates nothing (C06_type_reused).  State level, PROVED AS AN INVARIANT of every reachable state
+      further down: every live group/object's type IS that registered live type (C06_typed_invariant), hence two live
+      entities of one class and workspace share ONE type instance (C06_one_type_per_class).  Bounds: the three default
+      classes (root, container group, points); data types are not in the model. *)
 Theorem C06_type_reused : forall c h ws cls t,
   let w := run c init h in
   In (tuid cls, t) (R w ws KType) -> alive w t = true ->
@@ -178,7 +180,13 @@ Theorem C06_copy_end_to_end : forall c h e target,
 Proof. exact copy_end_to_end. Qed.
 Print Assumptions C06_copy_end_to_end.
 
-(* same workspace: the source pieces hold their identifiers there, so everything the copy registers is fresh *)
+(* when every source piece holds its identifier in the target workspace, everything the copy registers is fresh.
+   CONDITIONAL (audit 2, A15): the premise is a HYPOTHESIS.  It is what one expects of a same-workspace copy
+   (ews e = ews target, source and children live and registered), but it is NOT derived here from `ews e = ews target`:
+   that needs an invariant "the children and property groups of a live registered entity are live, registered, of the same
+   workspace and of the right kind" (true with rollback c = true as far as the correspondence shows; not proved).  So
+   "same workspace => all fresh" is proved at rule level only (C06_copy_same_ws_fresh: copy_uid, holder given) and for
+   the whole copy under this premise; the implementation side is the oracle key same-ws-copy-reuses-identifier. *)
 Theorem C06_copy_all_fresh_when_held : forall c h e target,
   let w := run c init h in
   let w' := fst (step c w (OCopy e target)) in
